@@ -14,14 +14,23 @@ Protocol front-end for C20.
 namespace Mouette.DriveC20
 open Mouette.Proto Mouette.UF
 
-def ufOp : P Op := do
+/-- driver-level operations: the model's `Op`s plus the two whole-structure queries `roots()` / `components()`,
+which the model answers through `rootsList` (Lemmas: `roots_spec`, `components_spec`). -/
+inductive DOp where
+  | op (o : Op)
+  | roots
+  | components
+
+def ufOp : P DOp := do
   let k ← tok
   match k with
-  | "a" => do let x ← nat; pure (.add x)
-  | "u" => do let x ← nat; let y ← nat; pure (.union x y)
-  | "f" => do let x ← nat; pure (.find x)
-  | "c" => do let x ← nat; let y ← nat; pure (.connected x y)
-  | "k" => do let x ← nat; pure (.component x)
+  | "a" => do let x ← nat; pure (.op (.add x))
+  | "u" => do let x ← nat; let y ← nat; pure (.op (.union x y))
+  | "f" => do let x ← nat; pure (.op (.find x))
+  | "c" => do let x ← nat; let y ← nat; pure (.op (.connected x y))
+  | "k" => do let x ← nat; pure (.op (.component x))
+  | "r" => pure .roots
+  | "m" => pure .components
   | _ => failure
 
 /-- canonical partition label: position of the first element having the same root -/
@@ -45,11 +54,37 @@ def answer (s : State) : Op → String
       | none => "err:Value"
       | some (_, l) => fmtNats (l.mergeSort (· ≤ ·))
 
-def ufRun (ops : List Op) : String :=
+def dedupNat (l : List Nat) : List Nat := l.foldl (fun acc x => if acc.contains x then acc else acc ++ [x]) []
+
+/-- `roots()`: the set of root indices; reported as: how many, how many of them are really roots, and the sorted class
+labels they stand for (identities forgotten) -/
+def answerRoots (s : State) : State × String :=
+  let (s1, rs) := rootsList s
+  let ds := dedupNat rs
+  let labs := partitionLabels s
+  let rl := (ds.map (fun r => labs.getD r 0)).mergeSort (· ≤ ·)
+  (s1, s!"{ds.length}:{(ds.filter (fun r => parent s1.par r == r)).length}:{fmtNats rl}")
+
+/-- `components()`: one bucket per reported root, filled with the elements whose root it is; canonical form: each bucket
+as sorted element ids, buckets sorted -/
+def answerComponents (s : State) : State × String :=
+  let (s1, rs) := rootsList s
+  let ds := dedupNat rs
+  let (s2, rs2) := rootsList s1
+  let buckets := ds.map (fun r => ((s.elts.zip rs2).filterMap (fun (e, r') => if r' = r then some e else none)).mergeSort (· ≤ ·))
+  let key (l : List Nat) : String := fmtNats l
+  let sorted := (buckets.map key).mergeSort (fun a b => decide (a ≤ b))
+  (s2, s!"{buckets.length}/{"/".intercalate sorted}")
+
+def dstep (s : State) : DOp → State × String
+  | .op o => (step s o, answer s o)
+  | .roots => answerRoots s
+  | .components => answerComponents s
+
+def ufRun (ops : List DOp) : String :=
   let (_, out) := ops.foldl (fun (acc : State × List String) op =>
     let s := acc.1
-    let a := answer s op
-    let s' := step s op
+    let (s', a) := dstep s op
     (s', acc.2 ++ [s!"{a};{s'.nElts};{s'.nComps};{s'.elts.length};{fmtNats (partitionLabels s')}"])) (init, [])
   " | ".intercalate out
 
